@@ -55,6 +55,14 @@ def _views(d, h):
             out.append(("diag", lambda: h.diagonal(), [nm[i][i] for i in range(R)]))
         if C >= 2:
             out.append(("[0:R,1:C]", lambda: h[0:R, 1:C], [row[1:C] for row in nm]))
+        if R >= 3 and C >= 3:
+            # square blocks on and off the diagonal (only principal blocks of a symmetric matrix are symmetric)
+            out.append(("[0:2,1:3]", lambda: h[0:2, 1:3], [row[1:3] for row in nm[0:2]]))
+            out.append(("[1:3,0:2]", lambda: h[1:3, 0:2], [row[0:2] for row in nm[1:3]]))
+            out.append(("[0:2,0:2]", lambda: h[0:2, 0:2], [row[0:2] for row in nm[0:2]]))
+            out.append((".T[0:2,1:3]", lambda: h.T[0:2, 1:3], [[nm[i][j] for i in range(1, 3)] for j in range(0, 2)]))
+            out.append(("[0:2,1:3].T", lambda: h[0:2, 1:3].T, [[nm[i][j] for i in range(0, 2)] for j in range(1, 3)]))
+            out.append(("[0:2,1:3][1,:]", lambda: h[0:2, 1:3][1, :], nm[1][1:3]))
     return out
 
 
@@ -66,6 +74,17 @@ def _point_array(order, point):
     import numpy as np
 
     return np.array([float(point[n]) for n in order], dtype=float)
+
+
+def _typed(value, dtype):
+    """The user's number(s) in the NumPy dtype they arrive in (None: plain Python numbers)."""
+    if dtype is None:
+        return value
+    import numpy as np
+
+    if isinstance(value, list):
+        return np.array(value, dtype=dtype)
+    return np.dtype(dtype).type(value)
 
 
 def _solve_kwargs(a):
@@ -199,7 +218,7 @@ class Executor:
             self.world.swap_hook()
             return
         if k == "flood":
-            self._flood(op[1], op[2] if len(op) > 2 else "f")
+            self._flood(op[1], op[2] if len(op) > 2 else "f", op[3] if len(op) > 3 else None)
             return
         if k == "gc":
             gc.collect()
@@ -294,19 +313,21 @@ class Executor:
             setattr(m.elems[op[2]], attr, op[3])
             sh["ov"].setdefault(op[2], {})[attr] = op[3]
         elif k == "param_set":
+            # optional 5th element: the NumPy dtype the user's number arrives in (np.float32(v), an
+            # element of an int8 array, ...); the number itself is exactly representable in it
             p = m.params[op[2]]
             if not isinstance(p, tuple):
-                p.set(op[3])
+                p.set(_typed(op[3], op[4] if len(op) > 4 else None))
             sh["pv"][op[2]] = op[3]
         elif k == "vparam_set":
             p = m.params[op[2]]
             if not isinstance(p, tuple):
-                p.set(list(op[3]))
+                p.set(_typed(list(op[3]), op[4] if len(op) > 4 else None))
             sh["pv"][op[2]] = list(op[3])
         elif k == "pel_set":
             p = m.params[op[2]]
             if not isinstance(p, tuple):
-                p[op[3]].set(op[4])
+                p[op[3]].set(_typed(op[4], op[5] if len(op) > 5 else None))
             sh["pv"][op[2]][op[3]] = op[4]
         elif k == "compile":
             hid, kind, args = op[2], op[3], op[4]
@@ -320,13 +341,22 @@ class Executor:
         else:
             raise HarnessError(f"unknown op {k}")
 
-    def _flood(self, n, tag):
-        """Push n throw-away expressions through the three process-wide caches."""
+    def _flood(self, n, tag, mode=None):
+        """Push n throw-away expressions through the three process-wide caches.  mode "orders":
+        every one of them over a variable list of its own (n distinct variable orderings)."""
         import optyx as ox
         from optyx.core.autodiff import gradient
         from optyx.core.compiler import compile_expression
         from optyx.analysis import compute_degree
 
+        if mode == "orders":
+            for i in range(n):
+                v = ox.Variable(f"{tag}{i}")
+                e = (v * 2.0) + 1.0
+                compile_expression(e, [v])
+                gradient(e, v)
+                compute_degree(e)
+            return
         x = ox.Variable(f"{tag}x")
         y = ox.Variable(f"{tag}y")
         for i in range(n):
